@@ -141,7 +141,9 @@ def linkFindings (m : Method) : List (String × String) :=
 def linkValidateDedup (m : Method) : List Diag := (linkFindings m).eraseDups.map fun (c, _) => err c
 
 /-- is the method picked up as a route at all: it needs @Method and @Route (the visitor ignores others) -/
-def isRoute (m : Method) : Bool := m.annots.any (·.name = "Method") && m.annots.any (·.name = "Route")
+def isRoute (m : Method) : Bool :=
+  -- `executionContext.IsApiEndpoint`: a @Method annotation and a NON-EMPTY first @Route value
+  m.annots.any (·.name = "Method") && ((m.annots.find? (·.name = "Route")).map (!·.value.isEmpty)).getD false
 
 /-- the declared struct types that EMBED `error` (a field merely typed `error` does not count) -/
 def errorEmbedders (p : PProject) : List String :=
@@ -234,6 +236,10 @@ def c10FindingOf (ctrlRoute : String) (m : Method) (accepted : Bool) (wl : List 
   else ""
 
 def checkC10 (p : PProject) (impl : Json) : PropOut := Id.run do
+  -- the printed sources do not compile (two perturbations colliding on one method, …): `packages.Load` refuses the
+  -- project before gleece looks at a single annotation — not a case about the validators
+  if (jstrD impl "setupErr").startsWith "pipeline: encountered" then
+    return { model := Json.str "uncompilable-source", implView := Json.str "uncompilable-source", nontrivial := false, notes := ["d:uncompilable-source"] }
   let md := (modelDiags p).map fun ds => dedupConflicts (ds ++ conflictDiags p)
   let idg := dedupConflicts (implDiags impl)
   let valErr := jstrD impl "validateErr"
@@ -298,6 +304,10 @@ def valueCodes : List String :=
   ["route-conflict", "linker-multiple-parameter-refs", "unsupported-feature", "annotation-value-invalid"]
 
 def checkC18 (p : PProject) (impl : Json) : PropOut := Id.run do
+  -- the printed sources do not compile (two perturbations colliding on one method, …): `packages.Load` refuses the
+  -- project before gleece looks at a single annotation — not a case about the validators
+  if (jstrD impl "setupErr").startsWith "pipeline: encountered" then
+    return { model := Json.str "uncompilable-source", implView := Json.str "uncompilable-source", nontrivial := false, notes := ["d:uncompilable-source"] }
   let mut fails : List String := []
   let diags := (jarrD impl "diags").toList
   let spans := (jarrD impl "_spans").toList
@@ -330,6 +340,12 @@ def checkC18 (p : PProject) (impl : Json) : PropOut := Id.run do
     if valueCodes.contains code then
       nValue := nValue + 1
       if !(annots.any (·.value = covered)) then fails := fails ++ [s!"value-range-text:{ctrl}.{ent}:{code}:'{covered}'"]
+    -- the link validator's complaint about a property VALUE (an alias that is not a string) covers the properties
+    -- object of that annotation: `{ … }`, in characters, not bytes
+    if code = "annotation-properties-invalid-value-for-key" && (jnat d "severity").toOption.getD 0 = 1 then
+      nValue := nValue + 1
+      if !(covered.startsWith "{" && covered.endsWith "}") then
+        fails := fails ++ [s!"properties-range-text:{ctrl}.{ent}:'{covered}'"]
     if code = "linker-route-missing-path-reference" || code = "linker-duplicate-url-parameter" then
       nValue := nValue + 1
       if !(covered.startsWith "{" && covered.endsWith "}" && annots.any fun a => a.name = "Route" && (a.value.splitOn covered).length > 1) then
